@@ -16,6 +16,7 @@ pub fn mpsc_channel<T>() -> (MpscSender<T>, MpscReceiver<T>) {
         data: VecDeque::with_capacity(64),
         waker: None,
         is_closed: false,
+        sender_count: 1,
     })));
     (
         MpscSender {
@@ -29,6 +30,7 @@ struct MpscInner<T> {
     data: VecDeque<T>,
     waker: Option<Waker>,
     is_closed: bool,
+    sender_count: usize,
 }
 
 impl<T> core::fmt::Debug for MpscInner<T> {
@@ -57,9 +59,29 @@ pub struct MpscSender<T> {
 
 impl<T> Clone for MpscSender<T> {
     fn clone(&self) -> Self {
+        critical_section::with(|cs| {
+            self.inner.borrow(cs).borrow_mut().sender_count += 1;
+        });
         Self {
             inner: self.inner.clone(),
         }
+    }
+}
+
+impl<T> Drop for MpscSender<T> {
+    fn drop(&mut self) {
+        critical_section::with(|cs| {
+            let mut inner_lock = self.inner.borrow(cs).borrow_mut();
+            inner_lock.sender_count -= 1;
+            if inner_lock.sender_count == 0 {
+                // When the last sender is dropped close the channel and wake the waiting task
+                // so that it can finish knowing it won't get any more messages
+                inner_lock.is_closed = true;
+                if let Some(w) = inner_lock.waker.take() {
+                    w.wake()
+                }
+            }
+        })
     }
 }
 
